@@ -181,7 +181,7 @@ func (n *nodeContext) validateValue(state vertexStatus) {
 			//
 			// TODO(evalv3): even better would be to ensure that all
 			// comprehensions are done before calling this.
-			if a.Label.IsRegular() && a.ArcType != ArcOptional {
+			if a.Label.IsRegular() && a.ArcType != ArcOptional && a.ArcType != ArcRequired {
 				markStruct = true
 				break
 			}
